@@ -8,6 +8,7 @@ import (
 	"os"
 	"os/exec"
 	"path/filepath"
+	"runtime"
 	"sort"
 	"strings"
 	"time"
@@ -79,6 +80,19 @@ func main() {
 	if *tier == "thorough" {
 		cfg.t0, cfg.t1, cfg.t2 = 10, 20, 120
 		cfg.allAgree = true
+	}
+	// a loaded machine slows every solver down: scale the time limits with the load average
+	if b, err := os.ReadFile("/proc/loadavg"); err == nil {
+		var l1 float64
+		fmt.Sscanf(string(b), "%f", &l1)
+		if f := l1 / float64(runtime.NumCPU()); f > 0.5 {
+			if f > 3 {
+				f = 3
+			}
+			sc := 1 + f
+			cfg.t0, cfg.t1, cfg.t2 = int(float64(cfg.t0)*sc), int(float64(cfg.t1)*sc), int(float64(cfg.t2)*sc)
+			loadScale = sc
+		}
 	}
 	// functions under contract for this property
 	var keys []string
@@ -159,6 +173,8 @@ func main() {
 	rep.Obls = all
 	rep.finish(*out, start, *verbose)
 }
+
+var loadScale = 1.0
 
 var cleanup = func() {}
 
